@@ -331,7 +331,7 @@ impl<T: Engine> Block for FftFilter<T> {
 /// therefore, this Float version of the FftFilter has a little worse
 /// performance than the Complex filter.
 #[derive(rustradio_macros::Block)]
-#[rustradio(crate)]
+#[rustradio(crate, noeof)]
 pub struct FftFilterFloat<T: Engine> {
     complex: FftFilter<T>,
     #[rustradio(in)]
@@ -387,6 +387,21 @@ impl<T: Engine> FftFilterFloat<T> {
             },
             dr,
         )
+    }
+}
+
+impl<T: Engine> crate::block::BlockEOF for FftFilterFloat<T> {
+    /// Done when the input has ended *and* nothing is in flight in the inner
+    /// streams any more. The derived `eof()` only looks at `src`, which
+    /// retired the block with filtered samples still waiting for output space.
+    fn eof(&mut self) -> bool {
+        use crate::stream::StreamWait;
+        if !self.src.eof() {
+            return false;
+        }
+        let nonempty = |s: &ReadStream<Complex>| s.read_buf().map(|(b, _)| !b.is_empty()).unwrap_or(false);
+        let in_flight = nonempty(&self.complex.src) || nonempty(&self.inner_out);
+        !in_flight || self.dst.closed()
     }
 }
 
